@@ -119,8 +119,9 @@ def handle (args : List Sexp) : String :=
        let r := parseP root
        let y := lookup words f gp r (parseP path)
        let gs := join [gp, ["src"]]
-       -- the Go rule: an importer that is not below GOPATH/src (noRoot) sees no vendor directory
-       let g := if r == [words.noRoot] then (if Spec.isDir f (gs ++ parseP path) then some (gs ++ parseP path) else none)
+       -- the Go rule: an importer that is not below GOPATH/src (written ".." in this protocol, whatever the
+       -- source calls it) sees no vendor directory
+       let g := if r == [".."] then (if Spec.isDir f (gs ++ parseP path) then some (gs ++ parseP path) else none)
                 else Spec.resolve f gs (relElems r) (parseP path)
        "y=" ++ showDir y ++ " g=" ++ (match g with | some d => q (renderP d) | none => "none")
      | none => "bad-op")
